@@ -2,6 +2,12 @@
 //! host: src/extract/with_ord.rs
 //! Bound: AstSize::cost on nodes with 0..4 children and child costs from {0, 1, 2, 7, u64::MAX-1, u64::MAX};
 //! WithOrdRev::partial_cmp / cmp on all pairs of costs from {0, 1, 2, 3, 10, u64::MAX}.
+//! Extractor::new / Extractor::extract (outside the contracts: BinaryHeap, class_nf, usages): 6 hand-written e-graphs
+//! with redundant slots / symmetric classes plus 300 (deep: 3000) pseudo-random ones (a term of depth <= 3 over a
+//! lambda/arithmetic language, a random subset of 16 rules, <= 3 rounds, <= 300 nodes); after every round EVERY class is
+//! extracted with AstSize: the term must look up to the class it was extracted from and its size must equal the
+//! least cost computed by an independent fixpoint over `enodes` (Bellman-Ford, no heap, no class_nf).
+//! also-with-features: checks
 use crate::*;
 use super::*;
 use std::cmp::Ordering;
@@ -17,6 +23,86 @@ define_language! {
 }
 
 fn id(i: usize) -> AppliedId { AppliedId::new(Id(i), SlotMap::new()) }
+
+define_language! {
+    pub enum XL {
+        Var(Slot) = "var",
+        Lam(Bind<AppliedId>) = "lam",
+        App(AppliedId, AppliedId) = "app",
+        Let(Bind<AppliedId>, AppliedId) = "let",
+        Add(AppliedId, AppliedId) = "add",
+        Mul(AppliedId, AppliedId) = "mul",
+        Sub(AppliedId, AppliedId) = "sub",
+        F3(AppliedId, AppliedId, AppliedId) = "f3",
+        G(AppliedId) = "g",
+        Zero() = "zero",
+        One() = "one",
+    }
+}
+type XG = EGraph<XL, ()>;
+struct Rng(u64);
+impl Rng { fn next(&mut self, n: u64) -> u64 { self.0 ^= self.0 << 13; self.0 ^= self.0 >> 7; self.0 ^= self.0 << 17; self.0 % n } }
+fn xterm(r: &mut Rng, depth: u32, ns: u64) -> String {
+    let v = |r: &mut Rng| format!("(var ${})", 1 + r.next(ns));
+    if depth == 0 { return match r.next(5) { 0 => "zero".into(), 1 => "one".into(), _ => v(r) }; }
+    match r.next(9) {
+        0 => format!("(mul {} {})", xterm(r, depth - 1, ns), xterm(r, depth - 1, ns)),
+        1 => format!("(add {} {})", xterm(r, depth - 1, ns), xterm(r, depth - 1, ns)),
+        2 => format!("(f3 {} {} {})", xterm(r, depth - 1, ns), v(r), v(r)),
+        3 | 4 => format!("(app {} {})", xterm(r, depth - 1, ns), xterm(r, depth - 1, ns)),
+        5 | 6 => format!("(lam ${} {})", 1 + r.next(ns), xterm(r, depth - 1, ns)),
+        7 => format!("(sub {} {})", xterm(r, depth - 1, ns), xterm(r, depth - 1, ns)),
+        _ => v(r),
+    }
+}
+const XRULES: [(&str, &str, &str); 16] = [
+    ("beta", "(app (lam $1 ?b) ?t)", "(let $1 ?b ?t)"),
+    ("let-var-same", "(let $1 (var $1) ?e)", "?e"),
+    ("sub-self", "(sub ?a ?a)", "zero"),
+    ("add-comm", "(add ?a ?b)", "(add ?b ?a)"),
+    ("mul-comm", "(mul ?a ?b)", "(mul ?b ?a)"),
+    ("add-assoc", "(add ?a (add ?b ?c))", "(add (add ?a ?b) ?c)"),
+    ("mul-zero", "(mul ?a zero)", "zero"),
+    ("mul-one", "(mul ?a one)", "?a"),
+    ("add-zero", "(add ?a zero)", "?a"),
+    ("distr", "(mul ?a (add ?b ?c))", "(add (mul ?a ?b) (mul ?a ?c))"),
+    ("f3-rot", "(f3 ?a ?b ?c)", "(f3 ?b ?c ?a)"),
+    ("f3-forget", "(f3 ?a ?b ?c)", "(f3 ?a ?b zero)"),
+    ("forget", "(mul ?a ?b)", "(mul ?a (var $7))"),
+    ("subst-beta", "(app (lam $1 ?b) ?t)", "?b[(var $1) := ?t]"),
+    ("g-intro", "(sub ?a ?b)", "(g (sub ?a ?b))"),
+    ("g-elim", "(g (g ?a))", "?a"),
+];
+fn re_size(re: &RecExpr<XL>) -> u64 { 1 + re.children.iter().map(re_size).sum::<u64>() }
+/// least AstSize cost per class by a plain fixpoint over the e-nodes (independent of Extractor)
+fn reference_costs(eg: &XG) -> std::collections::HashMap<Id, u64> {
+    let mut cost: std::collections::HashMap<Id, u64> = Default::default();
+    loop {
+        let mut changed = false;
+        for i in eg.ids() { for n in eg.enodes(i) {
+            let mut c: u64 = 1; let mut known = true;
+            for ch in n.applied_id_occurrences() { match cost.get(&eg.find_id(ch.id)) { Some(x) => c = c.saturating_add(*x), None => known = false } }
+            if known && cost.get(&i).map(|x| c < *x).unwrap_or(true) { cost.insert(i, c); changed = true; }
+        }}
+        if !changed { return cost; }
+    }
+}
+fn extraction_ok(eg: &XG) -> Result<usize, String> {
+    let reference = reference_costs(eg);
+    let mut k = 0;
+    for i in eg.ids() {
+        let a = eg.mk_identity_applied_id(i);
+        let t = ast_size_extract(&a, eg);
+        k += 1;
+        match crate::lookup_rec_expr(&t, eg) {
+            None => return Err(format!("C06:extract.member class {:?}: the extracted term {} is not in the e-graph", i, t)),
+            Some(b) => if !eg.eq(&a, &b) { return Err(format!("C06:extract.member class {:?}: the extracted term {} denotes {:?}, not {:?}", i, t, b, a)); }
+        }
+        let want = reference.get(&i).cloned();
+        if Some(re_size(&t)) != want { return Err(format!("C06:extract.cheapest class {:?}: the extracted term {} has size {}, the least size of a term of the class is {:?}", i, t, re_size(&t), want)); }
+    }
+    Ok(k)
+}
 
 pub fn run(only: &[String]) -> Vec<String> {
     let mut fails = Vec::new();
@@ -35,6 +121,41 @@ pub fn run(only: &[String]) -> Vec<String> {
                 let got = AstSize.cost(node, |i: Id| cs[i.0]);
                 let mut e: u64 = 1; for x in &cs { e = e.saturating_add(*x); }
                 if got != e && n < 3 { n += 1; fails.push(format!("FAIL AstSize::cost C06:ast_size.sum node {:?} with child costs {:?}: got {} expected {}", node, cs, got, e)); }
+            }
+        }
+    }
+    if want("Extractor::new") || want("Extractor::extract") {
+        let deep = std::env::var("VERIF_BOUNDED_DEEP").is_ok();
+        let mut n = 0;
+        let hand: Vec<(Vec<&str>, Vec<(usize, usize)>)> = vec![
+            (vec!["(mul (var $1) (var $2))", "(mul (var $1) (var $3))"], vec![(0, 1)]),
+            (vec!["(sub (var $1) (var $1))", "(g (g zero))"], vec![(0, 1)]),
+            (vec!["(f3 (var $1) (var $2) (var $3))", "(f3 (var $2) (var $3) (var $1))", "(f3 (var $1) (var $2) (var $9))"], vec![(0, 1), (0, 2)]),
+            (vec!["(lam $1 (mul (var $1) (var $2)))", "(lam $1 (mul (var $1) (var $3)))"], vec![(0, 1)]),
+            (vec!["(add (sub (var $1) (var $1)) (var $2))", "(g one)", "(sub (var $3) (var $3))"], vec![(1, 2)]),
+            (vec!["(g (f3 (var $4) (var $2) (var $3)))", "(f3 (var $1) (var $4) (var $2))"], vec![(0, 1)]),
+        ];
+        for (adds, unions) in hand {
+            verif_case(format!("extract after: add {:?}; union {:?}", adds, unions));
+            let mut eg = XG::default();
+            let ids: Vec<AppliedId> = adds.iter().map(|t| eg.add_expr(RecExpr::<XL>::parse(t).unwrap())).collect();
+            for (a, b) in &unions { eg.union(&ids[*a], &ids[*b]); }
+            if let Err(e) = extraction_ok(&eg) { if n < 3 { n += 1; let (c, m) = e.split_once(' ').unwrap(); fails.push(format!("FAIL Extractor::extract {} after add {:?}; union {:?}: {}", c, adds, unions, m)); } }
+        }
+        let seeds: u64 = if deep { 3000 } else { 300 };
+        for seed in 1..=seeds {
+            let mut r = Rng(seed.wrapping_mul(0x9E3779B97F4A7C15).wrapping_add(1));
+            let t = xterm(&mut r, 3, 3);
+            let mask = r.next(1 << 16);
+            let used: Vec<&str> = (0..16).filter(|i| mask & (1 << i) != 0).map(|i| XRULES[i].0).collect();
+            let rws: Vec<Rewrite<XL, ()>> = (0..16).filter(|i| mask & (1 << i) != 0).map(|i| Rewrite::new(XRULES[i].0, XRULES[i].1, XRULES[i].2)).collect();
+            let mut eg = XG::default();
+            eg.add_expr(RecExpr::<XL>::parse(&t).unwrap());
+            for round in 0..3 {
+                if eg.total_number_of_nodes() > 300 { break; }
+                verif_case(format!("extract every class after round {} of rules {:?} on {} (seed {})", round, used, t, seed));
+                apply_rewrites(&mut eg, &rws);
+                if let Err(e) = extraction_ok(&eg) { if n < 3 { n += 1; let (c, m) = e.split_once(' ').unwrap(); fails.push(format!("FAIL Extractor::extract {} term {} rules {:?} round {} (seed {}): {}", c, t, used, round, seed, m)); } break; }
             }
         }
     }
